@@ -9,7 +9,8 @@ SPEC = {
                  'EV.Merkle.cache_source_change', 'EV.Merkle.cache_correct', 'EV.Merkle.cache_rejects',
                  'EV.Merkle.cache_any_sequence',
                  'EV.Merkle.rfpLoop_inj', 'EV.Merkle.bar_binds', 'EV.Merkle.bar_binds_unique',
-                 'EV.Merkle.rfpTscLoop_inj_leaf', 'EV.Merkle.bar_binds_tsc'],
+                 'EV.Merkle.rfpTscLoop_inj_leaf', 'EV.Merkle.bar_binds_tsc',
+                 'EV.Merkle.bar_classic_starfree', 'EV.Merkle.bar_padding_classic'],
     'suites': ['merkle'],
     'assumptions': [
         'no assumption on the hash function: the theorems are generic in H(a, b) = hash_func(a + b) and hold as equalities of terms',
@@ -25,7 +26,7 @@ SPEC = {
         '(its failing inputs are corpus entries replayed on the real function)',
         'MerkleCache is modelled sequentially (source_func never suspends): interleavings with a re-org are C11 (finding F7)',
         'the model is tied to lib.merkle by differential execution, not by proof',
-        'cache_any_sequence fixes the source for the whole operation sequence; a source change after a truncate is covered only by the single-step lemma cache_source_change; bar_padding with tsc = false does not state that the branch is star-free',
+        'cache_any_sequence fixes the source for the whole operation sequence; a source change after a truncate is covered only by the single-step lemma cache_source_change; bar_padding states the fold through the TSC-aware loop: for tsc = false bar_classic_starfree / bar_padding_classic restate it for the real root_from_proof',
     ],
     'design_ref': 'DESIGN.md §6 C12, §8 F2',
     'level_text': 'proof: for every non-empty list, index, format, length padding, depth and cache operation sequence (no bound), '
